@@ -217,6 +217,16 @@ func T3Float32Range(p *AsmProg) func(x *Exec) {
 					if !ok {
 						x.notEncoded("vnumber: state pointer")
 					}
+					// the scratch digit buffer the native parser falls back to when the fast paths cannot
+					// decide the rounding: it must lie in the decoder's stack object and hold the 767
+					// significant digits (plus one) that decide halfway cases of float64 literals
+					if dbp, isp := x.loadLeafP(stp, 32, 8, lkPtr).(Ptr); !isp || dbp.Obj != e.sb {
+						x.check(x.st.False, "assert", "the digit buffer handed to native vnumber is not inside the decoder stack")
+					}
+					dcap := x.asmTerm(x.loadLeafP(stp, 40, 8, lkInt))
+					x.check(x.st.Uge(dcap, x.c64(768)), "assert", "the digit buffer handed to native vnumber holds fewer than 768 digits: long literals near a rounding midpoint are truncated and rounded the wrong way")
+					x.check(x.st.Ule(dcap, x.c64(800)), "assert", "the digit capacity handed to native vnumber exceeds the 800-byte buffer of the decoder stack")
+					x.covers["digit-buffer"] = true
 					x.storeLeafP(stp, 0, 8, x.c64(8))
 					x.storeLeafP(stp, 8, 8, dv)
 					icp, ok := st.R["SI"].(Ptr)
